@@ -26,9 +26,6 @@ Proof.
   rewrite !(is_punct_neq x _ H) by reflexivity. split; reflexivity.
 Qed.
 
-(** what may follow a type expression: anything but [<] and [:] *)
-Definition ty_stop (rest : tokens) : bool :=
-  match rest with [] => true | t :: _ => negb (teq t "<") && negb (teq t ":") end.
 
 (** the first token of a type expression *)
 Definition ty_head (h : string) : bool := ident_tok h || teq h "[" || teq h "(" || teq h ":".
